@@ -3,6 +3,7 @@ package main
 // VC assembly and solver racing.
 
 import (
+	"golang.org/x/tools/go/ssa"
 	"bytes"
 	"context"
 	"fmt"
@@ -51,6 +52,10 @@ type VC struct {
 	Ms      int64
 	Output  string
 	AllRes  map[string]string
+	fn      *ssa.Function
+	fc      *FuncContract
+	ModelQ  string
+	ModelOut string
 }
 
 func (P *Prog) header() string {
@@ -123,7 +128,11 @@ func (fx *FnCtx) buildVCs() ([]*VC, error) {
 		}
 		goal := "(assert (not " + it.t.S + "))\n"
 		text := P.assemble(fx.declList, lemmaAx, body.String()+goal, exclude)
-		vcs = append(vcs, &VC{Name: it.name, Clause: it.clause, Props: it.props, Known: it.known, Cover: it.cover, Text: text, Func: fx.key})
+		vc := &VC{Name: it.name, Clause: it.clause, Props: it.props, Known: it.known, Cover: it.cover, Text: text, Func: fx.key, fn: fx.fn, fc: fx.fc}
+		if ps, ok := replayParams(fx.fn); ok {
+			vc.ModelQ = modelQuery(ps)
+		}
+		vcs = append(vcs, vc)
 	}
 	return vcs, nil
 }
@@ -208,7 +217,11 @@ func discharge(vc *VC, dir string, timeoutS int, model bool) {
 	file := filepath.Join(dir, sanitize(vc.Name)+".smt2")
 	text := vc.Text
 	if model {
-		text += "(get-model)\n"
+		if vc.ModelQ != "" {
+			text += vc.ModelQ
+		} else {
+			text += "(get-model)\n"
+		}
 	}
 	if err := os.WriteFile(file, []byte(text), 0o644); err != nil {
 		vc.Result = "error"
@@ -234,6 +247,9 @@ func discharge(vc *VC, dir string, timeoutS int, model bool) {
 		x := <-ch
 		if ctx.Err() == nil {
 			vc.AllRes[x.s] = x.r
+		}
+		if (x.r == "sat" || x.r == "unknown") && strings.Contains(x.o, "((") && (vc.ModelOut == "" || x.r == "sat") {
+			vc.ModelOut = x.o
 		}
 		if x.r == "unsat" {
 			best = x
